@@ -23,8 +23,8 @@ def load_all() -> None:
 # property -> rule ids (DESIGN.md section 0 / 6)
 PROPERTY_RULES: Dict[str, List[str]] = {
     "C01": ["STORE-4", "STORE-5", "STORE-6", "STORE-7", "STORE-8", "CTRL-1", "CTRL-2", "CTRL-5", "CTRL-9", "CTRL-10", "CTRL-11", "STORE-11", "STORE-12", "ORD-3", "CTRL-13", "STORE-14", "STORE-15", "STORE-16"],
-    "C02": ["STORE-5", "TOTAL-3", "TOTAL-4", "TOTAL-6", "TOTAL-7", "USE-1", "ATTR-1", "QUERY-4", "QUERY-5", "QUERY-6", "LOWER-14", "QUERY-8", "CTRL-13", "STORE-15", "STORE-16"],
-    "C03": ["CTRL-5", "CTRL-6", "STORE-8", "STORE-12", "DISP-6", "TOTAL-6", "QUERY-4", "QUERY-5", "QUERY-6", "QUERY-7", "QUERY-8", "CTRL-13", "STORE-14", "STORE-15", "STORE-17"],
+    "C02": ["STORE-5", "TOTAL-3", "TOTAL-4", "TOTAL-6", "TOTAL-7", "USE-1", "ATTR-1", "QUERY-4", "QUERY-5", "QUERY-6", "LOWER-14", "QUERY-8", "CTRL-13", "STORE-15", "STORE-16", "CTRL-5"],
+    "C03": ["CTRL-5", "CTRL-6", "STORE-8", "STORE-12", "DISP-6", "TOTAL-6", "QUERY-4", "QUERY-5", "QUERY-6", "QUERY-7", "QUERY-8", "CTRL-13", "STORE-14", "STORE-15", "STORE-17", "STORE-18", "TOTAL-2"],
     "C04": ["STORE-6", "STORE-7", "STORE-8", "DISP-9", "NAME-3", "NAME-4", "STORE-17"],
     "C05": ["STORE-1", "STORE-2", "STORE-3", "STORE-4", "STORE-11", "STORE-13", "ORD-3", "STORE-14", "STORE-16"],
     "C06": ["CTRL-1", "CTRL-2", "CTRL-3", "CTRL-4", "CTRL-8", "CTRL-9", "CTRL-10", "CTRL-11", "STORE-5", "CTRL-12", "CTRL-14"],
